@@ -71,6 +71,9 @@ func TestReplay(t *testing.T) {
 	}
 	run := func(ch []uint32, keep bool) *RunResult {
 		res := RunOne(t, ReplayTape(ch), rf.Seed, RunOpts{Property: rf.Check, KeepLog: keep, Mutate: mut, Forced: forced})
+		if rf.Check == "C19" {
+			isolationCheck(t, res, rf.Seed)
+		}
 		if baseDigest != "" && res.Digest != baseDigest && res.EndReason == "quiescent" {
 			for j, kind := range forced {
 				res.Violations = append(res.Violations, Violation{Property: "C06", Oracle: "D1-final-state", Sig: "D1/" + res.Scenario.Family + "/" + kind + "|ev=", Seq: uint64(j),
